@@ -2115,7 +2115,7 @@ struct PlanDataT<
 	Bounds tasksBounds;
 	TasksBits tasksSuccesses;
 	TasksBits tasksFailures;
-	bool planExists;
+	bool planExists = false;
 	TaskStatus headStatus;
 	TaskStatus subStatus;
 
@@ -2164,7 +2164,7 @@ struct PlanDataT<
 	Bounds tasksBounds;
 	TasksBits tasksSuccesses;
 	TasksBits tasksFailures;
-	bool planExists;
+	bool planExists = false;
 	TaskStatus headStatus;
 	TaskStatus subStatus;
 
